@@ -142,3 +142,32 @@ def polygon3_contains(ctx):
         t = gs.Polygon(geometer.Point(*a), geometer.Point(*b), geometer.Point(*c))
         r = t.contains(geometer.Point(*p))
     ctx.ensure("contains<=>barycentric-coordinates>=0", ctx.iff(_b(ctx, r), _bary_spec(ctx, a, b, c, p)))
+
+
+@case("C16", "lemma.segment.contract.2d", names("a", 3) + names("b", 3) + ["al", "be"], mode="real", functions=[], timeout=120)
+def lemma_segment_contract(ctx):
+    """ghost lemma (no geometer code): on the line, p = al*a + be*b, the general-point formula used by the opaque stub
+    (contracts/stubs.py segment_contains_formula) is equivalent to the parametric contract proved for the real body in
+    segment.contains.online.2d; off the line both are false (segment.contains.offline.2d).  Together: the stub contract
+    holds for EVERY point p."""
+    from contracts.stubs import segment_contains_formula
+
+    a, b = ctx.vec("a", 3), ctx.vec("b", 3)
+    al, be = ctx.sym("al"), ctx.sym("be")
+    ctx.assume(ctx.neg(ctx.zero(a[2])))
+    ctx.assume(ctx.neg(ctx.zero(b[2])))
+    ctx.assume(ctx.neg(ctx.minors_zero(a, b)))
+    p = [al * x + be * y for x, y in zip(tolist(a), tolist(b))]
+    det, pz, n1, n2 = segment_contains_formula(None, tolist(a), tolist(b), p)
+    u, v = al * a[2], be * b[2]
+    Y = [b[0] * a[2] - a[0] * b[2], b[1] * a[2] - a[1] * b[2]]
+    yy = Y[0] * Y[0] + Y[1] * Y[1]
+    ctx.ensure("on-the-line", ctx.zero(det))
+    ctx.ensure("n1==yy*az^2*v*(u+v)", ctx.zero(n1 - yy * a[2] * a[2] * v * (u + v)))
+    ctx.ensure("n2==yy*az^2*u*(u+v)", ctx.zero(n2 - yy * a[2] * a[2] * u * (u + v)))
+    ctx.ensure("pz==u+v", ctx.zero(pz - (u + v)))
+    if ctx.symbolic:
+        ctx.ensure("yy>0", yy > 0)
+        lhs = ctx.conj([ctx.neg(ctx.zero(pz)), n1 >= 0, n2 >= 0])
+        rhs = ctx.conj([u * v >= 0, ctx.neg(ctx.zero(u + v))])
+        ctx.ensure("stub-formula<=>parametric-contract", ctx.iff(lhs, rhs))
